@@ -106,6 +106,7 @@ def edns(draw):
         "options": bytes(b.out).hex(),
         "xrcode": draw(st.sampled_from([0, 0, 0, 1, 0xFF, 0x10])),
         "normalizing": "normalizing" in b.flags,
+        "pad": draw(st.sampled_from([0, 0, 0, 0, 16, 128, 31])),
     }
 
 
@@ -262,7 +263,7 @@ def build(desc):
         w = bytes.fromhex(e["options"])
         opt = dns.rdata.from_wire(e["payload"], dns.rdatatype.OPT, w, 0, len(w))
         eflags = (e["xrcode"] << 24) | (e["flags"] & 0xFFFF)
-        m.use_edns(edns=e["version"], ednsflags=e["flags"] & 0xFFFF, payload=e["payload"], options=list(opt.options))
+        m.use_edns(edns=e["version"], ednsflags=e["flags"] & 0xFFFF, payload=e["payload"], options=list(opt.options), pad=e.get("pad", 0))
         # the extended rcode goes in through the public setter
         m.set_rcode((e["xrcode"] << 4) | (desc["flags"] & 0xF))
     return m
